@@ -467,6 +467,37 @@ def index_guard(fn, st, idx, arr):
         if render(lit.lhs) == it and (lit.rhs.const_value() is not None and lit.rhs.const_value() <= arr.size) and lit.pol:
             if cfg.dominates(s, tb) or s == tb:
                 return True
+    # the counter of a finished loop: `for (i = 0; i < C && ..; i++) ..;  a[i] = 0;` leaves i <= C
+    i0 = idx.strip()
+    if i0.k == "DeclRefExpr":
+        from . import loops as _loops
+        from .dataflow import ReachingDefs
+        rd = None
+        for lp in fn.walk():
+            if lp.k not in ("ForStmt", "WhileStmt") or st.within(lp):
+                continue
+            sh = _loops.index_shape(lp)
+            if not sh.ok or sh.var != it or sh.step != 1 or sh.cmp not in ("<", "<="):
+                continue
+            bn = getattr(sh, "bound_node", None)
+            if bn is None:
+                cond = lp.child("cond")
+                for c in (cond.walk() if cond is not None else []):
+                    if c.k == "BinaryOperator" and c.j.get("op") in ("<", "<=") and render(c.children[0]) == it and render(c.children[1]) == sh.bound:
+                        bn = c.children[1]
+            cmax = bn.const_value() if bn is not None else None
+            lo = sh.start_node.const_value() if sh.start_node is not None else None
+            if cmax is None or lo is None or lo < 0:
+                continue
+            top = cmax if sh.cmp == "<" else cmax + 1          # largest value the counter can have when the loop is left
+            if lo > top or top >= arr.size:
+                continue
+            if not cfg.dominates(cfg.loop_header(lp), tb):
+                continue
+            rd = rd or ReachingDefs(fn)
+            ds = rd.reaching(it, st)
+            if ds and all(d.node is not None and (d.node.within(lp) or d.rhs is sh.start_node) for d in ds):
+                return True
     return False
 
 
@@ -856,4 +887,125 @@ def analyse_heap_copies(prog, util=False):
                         why.append("the buffer allocated at %s has `%s` bytes, which does not depend on strlen(%s): %s() cuts longer text" % (
                             al.where, render(sz), src, c.j["callee"]))
             out.append(HeapCopy(f, c, ", ".join(_norm(x) for x in unb), verdict, "; ".join(why) or "the buffer was sized for the text it receives"))
+    return out
+
+
+# ---- Part 4: buffers that carry their capacity in a variable (grown on demand) ------------------------------------
+
+def _strip_casts(e):
+    e = e.strip()
+    while e.k in ("ImplicitCastExpr", "ParenExpr", "CStyleCastExpr") and e.children:
+        e = e.children[0].strip()
+    return e
+
+
+def _plus_const(e):
+    """(render of the variable part, constant) for `x`, `x + c`, `c + x`; None when not of that shape"""
+    e0 = _strip_casts(e)
+    if e0.k == "BinaryOperator" and e0.j.get("op") in ("+", "-"):
+        l, r = _strip_casts(e0.children[0]), _strip_casts(e0.children[1])
+        sign = 1 if e0.j["op"] == "+" else -1
+        if r.const_value() is not None and l.const_value() is None:
+            return render(l), sign * r.const_value()
+        if l.const_value() is not None and r.const_value() is None and sign == 1:
+            return render(r), l.const_value()
+        return None
+    if e0.const_value() is not None:
+        return None
+    return render(e0), 0
+
+
+def analyse_grown_buffers(prog, util=False):
+    """memcpy/memmove of a counted number of bytes into a heap buffer whose capacity lives in a variable
+    (`p = malloc(n0); cap = n0; ... if (need > cap) { p = realloc(p, m); cap = m; } memcpy(p, s, need)`): on every path to
+    the copy the count must be known to fit - a comparison `count <= cap` taken on the path, or the path goes through a
+    re-allocation whose new size is getline()'s own capacity for the very line that is copied."""
+    ftab = prog.util_functions if util else prog.functions
+    out = []
+    for f in ftab.values():
+        if f.file.endswith(".h"):
+            continue
+        copies = [c for c in f.calls(("memcpy", "memmove", "mempcpy")) if len(c.call_args()) == 3]
+        if not copies:
+            continue
+        cfg = f.cfg
+        for c in copies:
+            a = c.call_args()
+            d0 = _strip_casts(a[0])
+            if d0.k != "DeclRefExpr" or d0.j.get("dk") != "local":
+                continue
+            P = d0.j["name"]
+            # allocations of P and the capacity variable set next to each of them
+            allocs = []
+            for lhs, rhs, st in f.assignments():
+                nm = lhs["name"] if isinstance(lhs, dict) else render(lhs)
+                if nm != P or rhs is None:
+                    continue
+                r0 = _strip_casts(rhs)
+                if r0.k == "CallExpr" and r0.j.get("callee") in ("malloc", "realloc", "calloc"):
+                    allocs.append((st, r0, r0.call_args()[1] if r0.j["callee"] == "realloc" else r0.call_args()[0]))
+                elif r0.k == "DeclRefExpr" and r0.j.get("dk") == "local":
+                    # p = tmp  with  tmp = realloc(p, m)
+                    for l2, r2, st2 in f.assignments():
+                        n2 = l2["name"] if isinstance(l2, dict) else render(l2)
+                        if n2 == r0.j["name"] and r2 is not None and _strip_casts(r2).k == "CallExpr" and _strip_casts(r2).j.get("callee") == "realloc" \
+                                and render(_strip_casts(r2).call_args()[0]) == P:
+                            allocs.append((st, _strip_casts(r2), _strip_casts(r2).call_args()[1]))
+            if not allocs:
+                continue
+            caps = None
+            for st, call, size in allocs:
+                here = set()
+                sv = size.const_value()
+                for lhs, rhs, st2 in f.assignments():
+                    if rhs is None:
+                        continue
+                    nm = lhs["name"] if isinstance(lhs, dict) else render(lhs)
+                    if nm == P:
+                        continue
+                    same = render(_strip_casts(rhs)) == render(_strip_casts(size)) or (sv is not None and rhs.const_value() == sv)
+                    if same and (cfg.block_of(st2) == cfg.block_of(st) or isinstance(lhs, dict)):
+                        here.add(nm)
+                caps = here if caps is None else (caps & here)
+            if not caps:
+                continue
+            N = sorted(caps)[0]
+            cnt = _plus_const(a[2])
+            if cnt is None:
+                out.append(HeapCopy(f, c, render(a[2]), "unknown", "count `%s` is not of the form x + c" % render(a[2])))
+                continue
+            X, cc = cnt
+            # getline contract: X = getline(&B, &M, ..) leaves X + 1 <= M
+            gl = None
+            for lhs, rhs, st in f.assignments():
+                nm = lhs["name"] if isinstance(lhs, dict) else render(lhs)
+                if nm == X and rhs is not None and _strip_casts(rhs).k == "CallExpr" and _strip_casts(rhs).j.get("callee") in ("getline", "getdelim"):
+                    ga = _strip_casts(rhs).call_args()
+                    gl = (render(ga[0]).lstrip("&"), render(ga[1]).lstrip("&"))
+            grow_blocks = set()
+            for st, call, size in allocs:
+                if gl is not None and call.j["callee"] == "realloc" and render(_strip_casts(size)) == gl[1] and render(a[1]) == gl[0] and cc <= 1:
+                    grow_blocks.add(cfg.block_of(st))
+
+            def fits(lit, b, i):
+                if cfg.blocks[b].succs[i] in grow_blocks or b in grow_blocks:
+                    return True
+                if lit is None or lit.kind != "lt":
+                    return False
+                l, r = _plus_const(lit.lhs), _plus_const(lit.rhs)
+                if l is None or r is None:
+                    return False
+                if lit.pol and l[0] == X and r == (N, 0):
+                    return cc <= l[1] + 1           # X + k < N
+                if not lit.pol and l == (N, 0) and r[0] == X:
+                    return cc <= r[1]               # N >= X + k
+                return False
+            ok, cut = cfg.all_paths_cut(cfg.block_of(c), fits)
+            if ok:
+                out.append(HeapCopy(f, c, render(a[2]), "ok", "every path to the copy compares %s with the capacity `%s` of `%s` (or re-allocates to getline()'s size)" % (render(a[2]), N, P)))
+            else:
+                out.append(HeapCopy(f, c, render(a[2]), "overflow",
+                                    "`%s` bytes are copied into `%s`, whose capacity is `%s`, on a path on which only a weaker comparison (or none) "
+                                    "was made: with %s == %s the copy writes one byte past the end" % (render(a[2]), P, N, X, N) if cc >= 1 else
+                                    "`%s` bytes are copied into `%s` (capacity `%s`) without a comparison on the path" % (render(a[2]), P, N)))
     return out
